@@ -68,6 +68,7 @@ def run(ctx):
     r.rule("C04.tokenizer", "every pass of tokens.create proven text-conserving on all paths; side conditions discharged")
     r.rule("C04.classify", "classifier: class constant == tested literal; constant classes guarded; direct writes value preserving; line framing")
     r.rule("C04.clean", "no write-back without an applied fix")
+    r.rule("C04.reader", "the line reader splits on line feeds only and strips nothing but the line terminator")
     r.explanation = (
         "The tokenizer is proven, not sampled: sa/wordexec.py abstracts lists of strings and strings by their concatenation (tuples of symbolic atoms) "
         "and walks every syntactic path of each pass with inductive loop rules; proofs are rebuilt from /repo's source on every run. The classifier "
@@ -79,10 +80,64 @@ def run(ctx):
     _direct_writes(r, p, ct)
     _framing(r, p)
     _clean(r, ctx)
+    _reader(r, p)
     return r
 
 
 # ====================================================================== tokenizer
+_STR_EDITS = ("strip", "rstrip", "lstrip", "replace", "expandtabs", "lower", "upper", "title", "capitalize", "swapcase", "casefold", "translate", "removeprefix", "removesuffix", "zfill", "center", "ljust", "rjust", "format", "encode")
+
+
+def _reader(r, p):
+    """Reading must be lossless: the text of the file is the lines joined by the terminator.  In read_vhdlfile (and its
+    nested helpers) and in the statement of _processFile that hands a line to the tokenizer, the only string edits
+    allowed are rstrip of carriage return / line feed characters; lines come from iterating the file object,
+    readlines() or split on a line-feed literal - never str.splitlines(), which also breaks lines at form feed,
+    vertical tab, FS/GS/RS, NEL and U+2028/2029 and drops those characters."""
+    rd = p.function("vsg.vhdlFile.utils:read_vhdlfile")
+    pf = p.function("vsg.vhdlFile.vhdlFile:vhdlFile._processFile")
+    nodes = list(ast.walk(rd.node))  # includes nested defs
+    tok_calls = [n for n in walk_function(pf.node) if isinstance(n, ast.Call) and norm(n.func) == "tokens.create"]
+    if len(tok_calls) != 1:
+        raise AnalysisError("_processFile no longer hands each line to tokens.create exactly once")
+    nodes += list(ast.walk(tok_calls[0]))
+    n_edits = 0
+    sources = 0
+    for n in nodes:
+        if isinstance(n, ast.For) and any(n is x for x in ast.walk(rd.node)):
+            sources += 1
+        if not (isinstance(n, ast.Call) and isinstance(n.func, ast.Attribute)):
+            continue
+        a = n.func.attr
+        where = rd if any(n is x for x in ast.walk(rd.node)) else pf
+        kk = "%s:%s" % (where.key, norm(n)[:60])
+        if a == "splitlines":
+            sources += 1
+            n_edits += 2
+            r.fail("C04.reader", kk, "lines are obtained with str.splitlines(): besides line feeds it also splits at form feed, vertical tab, FS/GS/RS, NEL (0x85) and U+2028/U+2029 and drops them - a file containing one of these is not read back as written", where.loc(n))
+            continue
+        if a == "split":
+            sources += 1
+            if not (len(n.args) >= 1 and isinstance(n.args[0], ast.Constant) and n.args[0].value in ("\n", "\r\n")):
+                r.fail("C04.reader", kk, "lines are split on %s, not on a line-feed literal" % (norm(n.args[0]) if n.args else "arbitrary whitespace"), where.loc(n))
+            continue
+        if a == "readlines":
+            sources += 1
+            continue
+        if a in _STR_EDITS:
+            n_edits += 1
+            ok = a == "rstrip" and len(n.args) == 1 and isinstance(n.args[0], ast.Constant) and isinstance(n.args[0].value, str) and n.args[0].value != "" and set(n.args[0].value) <= {"\r", "\n"}
+            if ok:
+                r.ok("C04.reader", kk, "strips only line-terminator characters", sample=False)
+            else:
+                r.fail("C04.reader", kk, "the reader edits the text of a line with .%s(%s): only rstrip of carriage-return / line-feed characters keeps reading lossless" % (a, ", ".join(norm(x) for x in n.args)), where.loc(n))
+    if sources < 1:
+        raise AnalysisError("read_vhdlfile: no line source (iteration over the file, readlines, split) recognised")
+    if n_edits < 2:
+        raise AnalysisError("reader edits not found (expected the rstrip of the terminator in read_vhdlfile and _processFile)")
+    r.ok("C04.reader", rd.key, "lines come from iterating the file; %d terminator strips, nothing else edits a line before the tokenizer" % n_edits)
+
+
 def _tokenizer(r, p):
     mod = p.module("vsg.tokens")
     funcs = {n.name: n for n in mod.tree.body if isinstance(n, ast.FunctionDef)}
@@ -790,6 +845,12 @@ def _clean(r, ctx):
 
 _T = "vsg/tokens.py"
 VARIANTS = [
+    Variant("C04", "reader switches to read().splitlines()", "fire",
+            [("vsg/vhdlFile/utils.py", "        lLines = []\n        for sLine in oFile:\n            lLines.append(sLine.rstrip(\"\\r\\n\"))\n        return lLines", "        return oFile.read().splitlines()")], rule="C04.reader"),
+    Variant("C04", "reader strips trailing blanks", "fire",
+            [("vsg/vhdlFile/utils.py", "            lLines.append(sLine.rstrip(\"\\r\\n\"))", "            lLines.append(sLine.rstrip())")], rule="C04.reader"),
+    Variant("C04", "twin: reader uses readlines", "silent",
+            [("vsg/vhdlFile/utils.py", "        for sLine in oFile:\n            lLines.append(sLine.rstrip(\"\\r\\n\"))", "        for sLine in oFile.readlines():\n            lLines.append(sLine.rstrip(\"\\r\\n\"))")]),
     Variant("C04", "word pass forgets to emit the separator", "fire",
             [(_T, "                if sTemp != \"\":\n                    lReturn.append(sTemp)\n                lReturn.append(sChar)\n                sTemp = \"\"", "                if sTemp != \"\":\n                    lReturn.append(sTemp)\n                    sTemp = \"\"\n                else:\n                    lReturn.append(sChar)")],
             rule="C04.tokenizer", key="combine_characters_into_words"),
